@@ -28,13 +28,17 @@ import (
 // Rand is a splitmix64 stream.
 type Rand struct{ s uint64 }
 
-func NewRand(seed uint64) *Rand {
-	// the seed is hashed (one splitmix64 finaliser round over a seed-dependent state), so that
-	// consecutive seeds give unrelated streams rather than shifted copies of one walk
+// NewRand is the plain splitmix64 stream; engines that expand `pat`-style ops into data mirror this
+// definition in Lean, so it must not change.
+func NewRand(seed uint64) *Rand { return &Rand{s: seed*0x9e3779b97f4a7c15 + 0x1234567} }
+
+// NewSeededRand hashes the seed first, so that consecutive VERIF_SEED values give unrelated streams
+// rather than shifted copies of one walk. Used for the generators.
+func NewSeededRand(seed uint64) *Rand {
 	z := (seed + 0x1234567) * 0xd1342543de82ef95
 	z = (z ^ (z >> 30)) * 0xbf58476d1ce4e5b9
 	z = (z ^ (z >> 27)) * 0x94d049bb133111eb
-	return &Rand{s: z ^ (z >> 31)}
+	return NewRand(z ^ (z >> 31))
 }
 
 func (r *Rand) U64() uint64 {
@@ -160,7 +164,7 @@ func Run(t *testing.T, e Engine) {
 			w.WriteString(s)
 			w.WriteByte('\n')
 		}
-		e.Gen(NewRand(seed), n, os.Getenv("VERIF_TIER"), os.Getenv("VERIF_PROFILE"), emit)
+		e.Gen(NewSeededRand(seed), n, os.Getenv("VERIF_TIER"), os.Getenv("VERIF_PROFILE"), emit)
 		w.Flush()
 		f.Close()
 	case "exec":
